@@ -154,7 +154,7 @@ func genStyleAttrs(r *prng.R, i int) *astisub.StyleAttributes {
 			a.SSAEncoding = ip(r.Intn(2))
 		}
 		if r.Bool(0.6) {
-			a.SSAFontName = r.Pick("Arial", "Courier New", "Tahoma")
+			a.SSAFontName = r.Pick("Arial", "Courier New", "Tahoma", " arial ")
 		}
 		if r.Bool(0.6) {
 			a.SSAFontSize = fp(float64(r.Range(8, 40)))
@@ -204,13 +204,13 @@ func genStyleAttrs(r *prng.R, i int) *astisub.StyleAttributes {
 	}
 	if r.Bool(0.6) { // TTML
 		if r.Bool(0.6) {
-			a.TTMLColor = sp(r.Pick("white", "#ff0000", "#00ffff", "#ffff00"))
+			a.TTMLColor = sp(genColor(r))
 		}
 		if r.Bool(0.4) {
 			a.TTMLFontSize = sp(fmt.Sprintf("%d%%", r.Range(50, 150)))
 		}
 		if r.Bool(0.4) {
-			a.TTMLTextAlign = sp(r.Pick("center", "left", "right"))
+			a.TTMLTextAlign = sp(r.Pick("center", "left", "right", "Start"))
 		}
 		if r.Bool(0.3) {
 			a.TTMLExtent = sp("80% 10%")
@@ -222,7 +222,7 @@ func genStyleAttrs(r *prng.R, i int) *astisub.StyleAttributes {
 			a.TTMLZIndex = ip(r.Intn(5))
 		}
 		if r.Bool(0.2) {
-			a.TTMLBackgroundColor = sp("black")
+			a.TTMLBackgroundColor = sp(r.Pick("black", "Black", "#0000007F", " transparent"))
 		}
 	}
 	if r.Bool(0.6) { // WebVTT style blocks spread over several styles
@@ -275,9 +275,14 @@ func genItemAttrs(r *prng.R) *astisub.StyleAttributes {
 		a.STLPosition = &astisub.STLPosition{VerticalPosition: r.Range(0, 25), MaxRows: 23, Rows: r.Range(1, 3)}
 	}
 	if r.Bool(0.2) {
-		a.TTMLColor = sp("#00ff00")
+		a.TTMLColor = sp(genColor(r))
 	}
 	return a
+}
+
+// genColor draws colour strings in the spellings a "harmless" normalisation would alter.
+func genColor(r *prng.R) string {
+	return r.Pick("white", "#ff0000", "#00ffff", "#ffff00", "#FF00FF", "Red", "#00FF00", " yellow ", "rgba(255,0,0,255)")
 }
 
 func genLineItemAttrs(r *prng.R) *astisub.StyleAttributes {
@@ -290,8 +295,8 @@ func genLineItemAttrs(r *prng.R) *astisub.StyleAttributes {
 		a.SRTBold, a.SRTItalics = true, r.Bool(0.5)
 		a.WebVTTTags = []astisub.WebVTTTag{{Name: "b"}}
 	case 1:
-		a.SRTColor = sp("#ff00ff")
-		a.TTMLColor = sp("#ff00ff")
+		c := sp(genColor(r))
+		a.SRTColor, a.TTMLColor = c, c // the readers make both fields share one pointer
 	case 2:
 		a.WebVTTTags = []astisub.WebVTTTag{{Name: "c", Classes: []string{"yellow", "bg_blue"}}, {Name: "i"}}
 	case 3:
@@ -312,7 +317,18 @@ func GenList(r *prng.R, idx int) ListSpec {
 	l := ListSpec{Name: fmt.Sprintf("gen-list-%d", idx)}
 	ns := r.Range(0, 6)
 	for i := 0; i < ns; i++ {
-		st := StyleSpec{ID: fmt.Sprintf("%s%d", r.Pick("s", "style", "Z", "a"), i), Attrs: genStyleAttrs(r, i)}
+		// ids of different lengths, digit counts and case, in no particular order: "s9" next to "s10", "Default" next to "a2"
+		id := fmt.Sprintf("%s%d", r.Pick("s", "s", "style", "Z", "a", "Default", "x_"), r.Intn(13))
+		for dup := true; dup; {
+			dup = false
+			for _, o := range l.Styles {
+				if o.ID == id {
+					dup = true
+					id += "b"
+				}
+			}
+		}
+		st := StyleSpec{ID: id, Attrs: genStyleAttrs(r, i)}
 		if i > 0 && r.Bool(0.3) {
 			st.Parent = l.Styles[r.Intn(i)].ID
 		}
@@ -320,7 +336,7 @@ func GenList(r *prng.R, idx int) ListSpec {
 	}
 	nr := r.Range(0, 4)
 	for i := 0; i < nr; i++ {
-		rg := RegionSpec{ID: fmt.Sprintf("r%d", i), Attrs: genStyleAttrs(r, 10+i)}
+		rg := RegionSpec{ID: fmt.Sprintf("%s%d", r.Pick("r", "r", "Region", "B"), 8+3*i+r.Intn(3)), Attrs: genStyleAttrs(r, 10+i)}
 		if ns > 0 && r.Bool(0.5) {
 			rg.Style = l.Styles[r.Intn(ns)].ID
 		}
